@@ -76,6 +76,22 @@ MUTABLE_CTORS = ('dict', 'list', 'set', 'WeakKeyDictionary', 'WeakSet', 'WeakVal
 ROOTS = ('python_to_sdocs', 'pretty_python_value', 'is_registered', '_run_pretty', 'register_pretty')
 
 
+NOT_REBOUND = {'isinstance', 'issubclass', 'len', 'repr', 'type', 'getattr', 'hasattr', 'callable', 'id',
+               'str', 'int', 'float', 'bool', 'list', 'tuple', 'dict', 'set', 'frozenset', 'iter', 'next',
+               'enumerate', 'zip', 'reversed', 'sorted', 'min', 'max', 'any', 'all', 'super', 'locals',
+               'globals', 'vars', 'partial', 'ValueError', 'TypeError', 'KeyError', 'format'}
+
+
+def _co_call(twins):
+    def call(f, *a, **k):
+        co = twins.get(id(f))
+        if co is not None and co[0] is f:
+            return (yield from co[1](*a, **k))
+        return f(*a, **k)
+        yield  # pragma: no cover
+    return call
+
+
 def _callname(f):
     if isinstance(f, ast.Attribute):
         return f.attr
@@ -121,7 +137,8 @@ def select_functions(tree):
             continue
         reach.add(n)
         todo.extend(calls[n])
-    selected = (touches & reach) | (set(ROOTS) & set(defs))
+    direct = {name for name in defs if used[name] & mutable}
+    selected = (touches & reach) | direct | (set(ROOTS) & set(defs))
     # generators and decorated (e.g. memoised / registered) functions stay atomic
     for name in list(selected):
         fn = defs[name]
@@ -158,6 +175,12 @@ class ExprRewriter(ast.NodeTransformer):
         if isinstance(f, ast.Call) and isinstance(f.func, ast.Name) and f.func.id == 'register_pretty' \
                 and 'register_pretty' in self.names:
             f.func = ast.Name(id='__co__register_pretty', ctx=ast.Load())
+            return ast.YieldFrom(value=node)
+        if isinstance(f, ast.Name) and f.id not in self.names and f.id not in NOT_REBOUND:
+            # possibly one of the transformed functions passed around as a value
+            # (e.g. the printer handed to _run_pretty): resolved at run time
+            node.args = [f] + node.args
+            node.func = ast.Name(id='__co_call', ctx=ast.Load())
             return ast.YieldFrom(value=node)
         return node
 
@@ -335,6 +358,35 @@ def printer_direct(value, ctx):
     return 'DIRECT'
 
 
+class PredA:
+    def __repr__(self):
+        return 'REPR_PredA'
+
+
+class PredB:
+    def __init__(self, x=0):
+        self.x = x
+
+    def __repr__(self):
+        return 'REPR_PredB'
+
+
+def is_pred_a(value):
+    return isinstance(value, PredA)
+
+
+def is_pred_b(value):
+    return isinstance(value, PredB)
+
+
+def printer_pred_a(value, ctx):
+    return 'BY_PREDICATE_A'
+
+
+def printer_pred_b(value, ctx):
+    return PP.pretty_call(ctx, PredB, value.x)
+
+
 SETUPS = {
     # deferred entry for the exact class of the printed values
     'exact': [('name', 'LazyBase', printer_base)],
@@ -344,6 +396,8 @@ SETUPS = {
     'two-levels': [('name', 'LazyBase', printer_base), ('name', 'LazyChild', printer_child)],
     # directly registered base, deferred (newer) entry for the same base
     'direct-then-name': [('class', 'LazyBase', printer_direct), ('name', 'LazyBase', printer_base)],
+    # printers registered with predicates (consulted, in registration order, for unregistered types)
+    'predicates': [('pred', is_pred_a, printer_pred_a), ('pred', is_pred_b, printer_pred_b)],
 }
 
 THREAD_VALUES = {
@@ -353,6 +407,7 @@ THREAD_VALUES = {
     'direct-then-name': ['LazyBase(1)', 'LazyChild(2)', 'Direct()'],
     'mixed': ['LazyBase(1)', 'Plain()', 'Direct()'],
     'containers': ['[LazyBase(1), 2]', "{'k': LazyChild(2)}", '(LazyBase(3),)'],
+    'predicates': ['PredB(1)', 'PredB(2)', 'PredA()'],
 }
 
 
@@ -362,13 +417,15 @@ def apply_setup(name):
     for kind, cls, fn in SETUPS.get(name, SETUPS['exact']):
         if kind == 'name':
             PP.register_pretty('vf.props.c20.' + cls)(fn)
+        elif kind == 'pred':
+            PP.register_pretty(predicate=cls)(fn)
         else:
             PP.register_pretty(globals()[cls])(fn)
 
 
 def make_value(src):
     return eval(src, {'LazyBase': LazyBase, 'LazyChild': LazyChild, 'LazyGrand': LazyGrand,
-                      'Direct': Direct, 'Plain': Plain})
+                      'Direct': Direct, 'Plain': Plain, 'PredA': PredA, 'PredB': PredB})
 
 
 class ScheduleCase(base.CaseBase):
@@ -466,6 +523,12 @@ class ScheduleCase(base.CaseBase):
             exec(self.code, ns)
             overlay_dispatch = _co_dispatch(ns)
             ns['__co_dispatch'] = overlay_dispatch
+            twins = {}
+            for name in self.selected:
+                real = PP.__dict__.get(name)
+                if real is not None and name != 'register_pretty' and ('__co__' + name) in ns:
+                    twins[id(real)] = (real, ns['__co__' + name])
+            ns['__co_call'] = _co_call(twins)
             me[0] = ns           # identity of the thread
             value = values[i]
             gen = ns['__co__python_to_sdocs'](value, indent=4, width=79, depth=None, ribbon_width=71,
@@ -584,9 +647,12 @@ class ScheduleCase(base.CaseBase):
         active_run_pretty = [0] * n
 
         def make_tracer(i):
+            traced = set()          # ids of the live frames that are being stepped
+
             def local_rp(frame, event, arg):
                 if event == 'return':
                     active_run_pretty[i] -= 1
+                    traced.discard(id(frame))
                     return local_rp
                 return local(frame, event, arg) and local_rp
 
@@ -600,15 +666,24 @@ class ScheduleCase(base.CaseBase):
                     pointer[i] += 1
                     arrived[i].release()
                     go[i].acquire()
+                elif event == 'return':
+                    traced.discard(id(frame))
                 return local
 
             def tracer(frame, event, arg):
                 co = frame.f_code
                 if event == 'call' and co.co_filename == fname and co.co_name in targets:
                     # everything below the outermost _run_pretty (the printer and
-                    # the values nested in it) is one atomic step in the model
+                    # the values nested in it) is one atomic step in the model -
+                    # except transformed functions called directly from a stepped
+                    # frame (the printer handed to _run_pretty may be one of them)
                     if active_run_pretty[i] > 0:
+                        if frame.f_back is not None and id(frame.f_back) in traced \
+                                and co.co_name != '_run_pretty':
+                            traced.add(id(frame))
+                            return local
                         return None
+                    traced.add(id(frame))
                     if co.co_name == '_run_pretty':
                         active_run_pretty[i] += 1
                         return local_rp
@@ -739,7 +814,7 @@ def cases(tier, seed):
     C3_QUICK = [0, 1, 2, 3, 5, 8, 13, 21, 34, 52]
     C3_THOROUGH = sorted(set(list(range(0, 16)) + [18, 21, 25, 30, 34, 40, 46, 52]))
     setups = [('exact', None), ('base', None), ('two-levels', None), ('direct-then-name', None), ('exact', 'mixed'),
-              ('exact', 'same-object'), ('exact', 'containers')]
+              ('exact', 'same-object'), ('exact', 'containers'), ('predicates', None)]
     for setup, values in setups:
         label = setup if values is None else setup + '+' + values
         if tier == 'quick' and setup == 'two-levels':
